@@ -375,6 +375,30 @@ pub fn c15_case(dir: &Path, n: usize, word: &[CEv]) -> Result<String, V> {
             }
             fresh.push(s);
         }
+        // the N stay open and SILENT while a lot of time passes for the server (a minute, an hour, two
+        // days): a server that hangs up on silent connections may do so, the accounting must still
+        // come out even - the ones it closed are replaced, all of them served
+        for ms in [31_000i64, 31_000, 3_600_000, 172_800_000] {
+            srv.let_time_pass(ms);
+        }
+        let mut still_open: Vec<TcpStream> = vec![];
+        for mut s in fresh.drain(..) {
+            let (_, eof, err) = try_read(&mut s);
+            if !eof && err.is_none() {
+                still_open.push(s);
+            }
+        }
+        let closed_by_server = n - still_open.len();
+        fresh = still_open;
+        for i in 0..closed_by_server {
+            let mut s = srv.connect().map_err(|e| mach(format!("connect: {}", e)))?;
+            s.write_all(&get).map_err(|e| mach(e.to_string()))?;
+            match read_frame(&mut s, T20) {
+                Ok((RFrame::Null, _)) => {}
+                other => return Err(("slot-leaked".into(), format!("the server closed {} silent connections after two days; replacement {} is not served: {:?}", closed_by_server, i + 1, other.map(|x| x.0)))),
+            }
+            fresh.push(s);
+        }
         // one more than the limit is not served while the N are open
         let e0 = srv.epoch();
         let mut extra = srv.connect().map_err(|e| mach(format!("connect: {}", e)))?;
